@@ -4,7 +4,7 @@ Each worker owns a scratch worktree of /repo (where the change is applied; /repo
 copy of /verif (its own generated tables, Lake build directory, replays and evidence), so workers do not disturb each
 other nor the registered checks.  Writes seeded/REPLAY.json: for every change, which checks were run and what they said.
 
-usage: seeded_replay_all.py [--workers 4] [--only C01-a,C02-b] [--thorough-on-miss]
+usage: seeded_replay_all.py [--workers 4] [--only C01-a,C02-b] [--seeds 1]
 """
 from __future__ import annotations
 
@@ -18,6 +18,7 @@ from concurrent.futures import ThreadPoolExecutor
 
 VERIF = os.path.dirname(os.path.dirname(os.path.abspath(__file__)))
 SCRATCH = os.environ.get('VERIF_SCRATCH', '/tmp/furax-verif-replay')
+SEEDS = '0'
 
 
 def sh(cmd, **kw):
@@ -41,8 +42,8 @@ def worker(k: int, ids: list[str]) -> list[dict]:
             meta = json.load(open(os.path.join(VERIF, 'seeded', sid, 'meta.json')))
             props = sorted({prop} | {c.split(':')[0] for c in meta.get('caught_by', [])})
             t0 = time.time()
-            r = sh([sys.executable, os.path.join(vf, 'harness', 'seeded_eval.py'), d, prop, '--props', ','.join(props)],
-                   env=dict(os.environ, VERIF_REPO=wt))
+            r = sh([sys.executable, os.path.join(vf, 'harness', 'seeded_eval.py'), d, prop, '--props', ','.join(props),
+                    '--seeds', SEEDS], env=dict(os.environ, VERIF_REPO=wt))
             lines = [l.strip() for l in r.stdout.split('\n') if l.strip().startswith(('check ', 'demo:', '{'))]
             caught = [l.split()[1] for l in lines if l.startswith('check ') and 'CAUGHT' in l]
             infra = [l for l in lines if 'INFRA' in l]
@@ -59,6 +60,9 @@ def worker(k: int, ids: list[str]) -> list[dict]:
 def main() -> int:
     args = sys.argv[1:]
     nw = int(args[args.index('--workers') + 1]) if '--workers' in args else 4
+    global SEEDS
+    if '--seeds' in args:
+        SEEDS = args[args.index('--seeds') + 1]
     ids = sorted(d for d in os.listdir(os.path.join(VERIF, 'seeded')) if os.path.isdir(os.path.join(VERIF, 'seeded', d)))
     if '--only' in args:
         ids = args[args.index('--only') + 1].split(',')
@@ -72,8 +76,10 @@ def main() -> int:
     summary = {'repo_head': head, 'verif_head_at_start': vhead, 'n': len(res),
                'target_caught': sum(1 for r in res if r.get('target_caught')),
                'missed': [r['id'] for r in res if not r.get('target_caught')], 'results': res}
+    summary['seeds'] = SEEDS
     if '--only' not in args:
-        json.dump(summary, open(os.path.join(VERIF, 'seeded', 'REPLAY.json'), 'w'), indent=1)
+        name = 'REPLAY.json' if SEEDS == '0' else f'REPLAY-seed{SEEDS.replace(",", "_")}.json'
+        json.dump(summary, open(os.path.join(VERIF, 'seeded', name), 'w'), indent=1)
     print(json.dumps({k: v for k, v in summary.items() if k != 'results'}))
     return 0
 
